@@ -8,6 +8,7 @@ import (
 	"bytes"
 	"encoding/hex"
 	"fmt"
+	"io"
 	"testing"
 
 	"pgregory.net/rapid"
@@ -115,6 +116,19 @@ func vf18HybridCaptureSrc(rt *rapid.T) (vfClientSrc, bool) {
 	return vfFingerprintedSrc(p)
 }
 
+// vf18ShortReader returns at most k bytes per Read.
+type vf18ShortReader struct {
+	r io.Reader
+	k int
+}
+
+func (s *vf18ShortReader) Read(p []byte) (int, error) {
+	if len(p) > s.k {
+		p = p[:s.k]
+	}
+	return s.r.Read(p)
+}
+
 // Sizes per group; no repetition of shares, client randoms and session ids across connections.
 func TestVerifC18Freshness(t *testing.T) {
 	st := vfNewStats(t, "C18")
@@ -127,12 +141,19 @@ func TestVerifC18Freshness(t *testing.T) {
 		n := rapid.IntRange(3, 8).Draw(rt, "n")
 		useCryptoRand := rapid.Bool().Draw(rt, "cryptorand")
 		baseSeed := rapid.Uint64().Draw(rt, "seedbase")
+		shortReads := rapid.SampledFrom([]int{0, 0, 1, 3, 7, 16}).Draw(rt, "rand_short_reads")
+		if shortReads > 0 && !useCryptoRand {
+			st.Class("config-rand-with-short-reads")
+		}
 		seen := map[string]int{}
 		nshares := 0
 		for i := 0; i < n; i++ {
 			mod := func(c *Config) {
 				if useCryptoRand {
 					c.Rand = nil
+				} else if shortReads > 0 {
+					// an entropy source that legally returns fewer bytes than asked for (io.Reader contract)
+					c.Rand = &vf18ShortReader{r: c.Rand, k: shortReads}
 				}
 			}
 			p, err := vfPrepareClient(src, sni, baseSeed+uint64(i)*0x9e3779b97f4a7c15, mod)
@@ -152,6 +173,13 @@ func TestVerifC18Freshness(t *testing.T) {
 			note("client_random", h.Random)
 			if len(h.Random) != 32 {
 				st.Violation(rt, "%s: client random has %d bytes", src, len(h.Random))
+			}
+			if len(h.Random) == 32 && bytes.Equal(h.Random[16:], make([]byte, 16)) {
+				// probability 2^-128 for a random that was really filled
+				st.Violation(rt, "%s: client random %x ends in 16 zero bytes: it was not filled from Config.Rand (short reads: %d bytes per Read)", src, h.Random, shortReads)
+			}
+			if len(h.SessionID) == 32 && bytes.Equal(h.SessionID[16:], make([]byte, 16)) {
+				st.Violation(rt, "%s: session id %x ends in 16 zero bytes: it was not filled from Config.Rand (short reads: %d bytes per Read)", src, h.SessionID, shortReads)
 			}
 			if len(h.SessionID) > 0 {
 				note("session_id", h.SessionID)
